@@ -84,3 +84,42 @@ def cut_jobs(seed, limit):
         out.append({"run": run, "msgs": msgs, "pretty": rng.random() < 0.5, "steps": steps})
         run += 1
     return out
+
+
+def burst_jobs(seed, n):
+    """many hook calls whose handlers return in the same instant, and a reader that drains stdout late through a small pipe"""
+    rng = random.Random(seed ^ 0xb5)
+    out = []
+    for r in range(n):
+        k = rng.choice([5, 6, 8, 12, 16])
+        msgs = [{"kind": "hook", "id": rng.choice([t + 100, "b%d" % t]), "tag": t, "pad": rng.choice(PADS + ["x" * rng.choice([10, 3000])])} for t in range(1, k + 1)]
+        steps = [{"a": "chunk", "n": 10 ** 7}]
+        slow = rng.random() < 0.5
+        if slow:
+            steps.append({"a": "read"})
+        tags = list(range(1, k + 1)); rng.shuffle(tags)
+        if rng.random() < 0.6:
+            steps.append({"a": "finish_many", "tags": tags, "how": "ok"})
+        else:
+            cut = rng.randint(1, k - 1)
+            steps.append({"a": "finish_many", "tags": tags[:cut], "how": "ok"})
+            steps.append({"a": "finish_many", "tags": tags[cut:], "how": rng.choice(["ok", "err"])})
+        job = {"run": 0, "msgs": msgs, "steps": steps, "pretty": False}
+        if slow:
+            # replies pile up behind a small pipe; further input arrives meanwhile; then the reader catches up
+            job["slow"] = True; job["outcap"] = rng.choice([64, 256, 4096])
+            extra = [{"kind": "notif", "id": 0, "tag": k + 1, "pad": ""}, {"kind": "hook", "id": "late", "tag": k + 2, "pad": ""}]
+            job["msgs"] = msgs[:-0 or None]
+            # the late messages are part of the stream from the start; deliver all but them first
+            job["msgs"] = msgs + extra
+            job["steps"] = [{"a": "chunk", "n": -1}]  # placeholder, fixed below
+        out.append(job)
+    # slow jobs: deliver the first k messages, finish them all, THEN deliver the late messages, then read
+    for job in out:
+        if job.get("slow"):
+            k = len(job["msgs"]) - 2
+            tags = list(range(1, k + 1)); rng.shuffle(tags)
+            job["steps"] = [{"a": "chunk_msgs", "upto": k}, {"a": "read"}, {"a": "finish_many", "tags": tags, "how": "ok"},
+                            {"a": "chunk", "n": 10 ** 7}, {"a": "finish", "tag": k + 2, "how": "ok"},
+                            {"a": "read"}, {"a": "read"}]
+    return out
